@@ -649,6 +649,21 @@ theorem entry_points_forward_options_unchanged :
           forwarding.any fun r => r.1 == e && r.2.1 == k) = true :=
   ⟨SegReadTie.forwarding_passes_options_unchanged, SegReadTie.forwarding_covers_entry_points⟩
 
+/-- an option left out of a call means the documented default at every one of the five entry points (T8k) -/
+theorem omitted_options_mean_the_documented_defaults :
+    optionDefaults.all (fun r => SegReadTie.documentedDefaults.lookup r.2.1 == some r.2.2) = true ∧
+    (["get_pixels_by_source_instance", "get_pixels_by_source_frame", "get_volume",
+      "get_pixels_by_dimension_index_values", "get_total_pixel_matrix"].all fun e =>
+        ["segment_numbers", "combine_segments", "relabel", "rescale_fractional", "skip_overlap_checks", "dtype"].all fun k =>
+          optionDefaults.any fun r => r.1 == e && r.2.1 == k) = true :=
+  SegReadTie.option_defaults_agree
+
+/-- the list-valued accessors return values the caller may edit without the object noticing (T8n + the alias analysis) -/
+theorem returned_lists_are_the_callers :
+    Effects.pureProg [0] accessorEffects = true ∧
+    (accessorResults.all fun n => !(Effects.mayAlias [0] accessorEffects).contains n) = true :=
+  SegReadTie.accessors_return_new_values
+
 /-- the one-hot expansion of a label map and the rescaling tail of a FRACTIONAL read (T8m) -/
 theorem post_processing_is_source (d : DType) (n : Nat) (v : Int) (mfv : Nat) (frames : List (List (List Int))) :
     oneHot d n v =
